@@ -5,7 +5,7 @@
    emulator (known findings D3/D4): the supplied bytes are run through an overlay at PC, so RST/CALL push PC + length.
    The whole-program statement (same final registers/flags/IFF/memory for every injection point) is the experiment
    of checks/c07.py on the real code. *)
-From Z80V Require Import Proofs.SpecFacts Proofs.RoundTrip Proofs.Iter.
+From Z80V Require Import Proofs.SpecFacts Proofs.RoundTrip Proofs.Deferred Proofs.Iter.
 
 Theorem C07_tie : forall cpu, WF cpu -> Step cpu = spec_step impl_unspec cpu.
 Proof. exact Step_ok. Qed.
@@ -109,3 +109,26 @@ Proof.
   - cbv [WF WF_gpr WF_reg WF_mem WF_irq nmi_demo cpu0]; cbv_struct; unfold is8, is16; repeat split; try lia; constructor.
   - repeat split; try reflexivity; vm_compute; discriminate.
 Qed.
+
+(* ---- a maskable request arriving while interrupts are disabled (IFF1 = 0, mode 1), the program about to execute EI, for the
+   generated Step: Step 1 refuses it, leaves it pending and runs EI (nothing pushed); Step 2 accepts it: the address pushed is that
+   of the first instruction not yet executed (the one after EI), control goes to 0038h, both flip-flops cleared, request consumed,
+   no program instruction runs in that Step (R advanced only by EI's fetch) ---- *)
+Theorem C07_deferred_request_served_after_ei : forall cpu dat, WF cpu -> g_Memory cpu = UserMem ->
+  g_Interrupt cpu = Some (mk_Interrupt 1 dat) -> g_IFF1 cpu = false -> g_IM cpu = 1 ->
+  u8 (ram (g_W cpu) (g_PC cpu)) = 251 ->
+  let next := u16 (g_PC cpu + 1) in
+  let sp2 := u16 (g_SP cpu - 2) in let sp1 := u16 (sp2 + 1) in
+  let cpu1 := iter 1 cpu in let cpu2 := iter 2 cpu in
+  (g_Interrupt cpu1 = Some (mk_Interrupt 1 dat) /\ g_IFF1 cpu1 = true /\ g_IFF2 cpu1 = true /\ g_PC cpu1 = next /\
+   g_SP cpu1 = g_SP cpu /\ ram (g_W cpu1) = ram (g_W cpu)) /\
+  (g_Interrupt cpu2 = None /\ g_IFF1 cpu2 = false /\ g_IFF2 cpu2 = false /\ g_PC cpu2 = 56 /\ g_SP cpu2 = sp2 /\
+   g_GPR cpu2 = g_GPR cpu /\ g_Alternate cpu2 = g_Alternate cpu /\ g_IX cpu2 = g_IX cpu /\ g_IY cpu2 = g_IY cpu /\
+   g_IM cpu2 = g_IM cpu /\ g_IR_Hi cpu2 = g_IR_Hi cpu /\ g_IR_Lo cpu2 = r_tick (g_IR_Lo cpu) /\
+   ram (g_W cpu2) = upd (upd (ram (g_W cpu)) sp2 (lo next)) sp1 (hi next)).
+Proof. exact deferred_im1_gen. Qed.
+Print Assumptions C07_deferred_request_served_after_ei.
+Example C07_deferred_premises_hold :
+  WF deferred_demo /\ g_Memory deferred_demo = UserMem /\ g_Interrupt deferred_demo = Some (mk_Interrupt 1 []) /\
+  g_IFF1 deferred_demo = false /\ g_IM deferred_demo = 1 /\ u8 (ram (g_W deferred_demo) (g_PC deferred_demo)) = 251.
+Proof. exact deferred_demo_premises. Qed.
